@@ -109,6 +109,8 @@ pub fn verif_new_cell(context: &mut GlobalDataLock, d: Data) -> (r: DataArc)
     ensures
         !old(context).cells().contains_key(r.cell()),
         final(context).cells() == old(context).cells().insert(r.cell(), d),
+        final(context).calls() == old(context).calls(),
+        final(context).vars() == old(context).vars(),
         !r.readonly(),
 {
     unimplemented!()
@@ -424,4 +426,20 @@ pub open spec fn arg_chain(es: Seq<Box<dyn Expression>>, ctxs: Seq<GlobalDataLoc
     &&& vals.len() == n
     &&& forall|j: int| 0 <= j < n ==> (#[trigger] es[j]).sem(ctxs[j], ctxs[j + 1], false, rs[j])
     &&& forall|j: int| 0 <= j < n ==> #[trigger] vals[j] == arg_value(ctxs[j + 1], rs[j])
+}
+
+impl GlobalDataLock {
+    /// the custom/built-in actions called so far: (name, argument values), in order (ghost)
+    pub uninterp spec fn calls(&self) -> Seq<(Seq<char>, Seq<Data>)>;
+}
+
+/// R19: `context.actions.execute(name, arguments, context)`: one call of the named action with these argument values
+#[verifier::external_body]
+pub fn verif_call_action(context: &mut GlobalDataLock, name: &str, arguments: &[Data]) -> (r: Result<Data, String>)
+    ensures
+        final(context).calls() == old(context).calls().push((name@, arguments@)),
+        final(context).cells() == old(context).cells(),
+        final(context).vars() == old(context).vars(),
+{
+    unimplemented!()
 }
